@@ -180,7 +180,10 @@ def _r3(chk, repo, ci):
     p = func_params(fn)[1]
     kind, res = walk(canon_fn(repo, ci, fn, 3), {}, pn)
     got = _ct(unparse(res)) if kind == "return" else kind
-    want = [_ct(f"self._compute_numpy_stats(np.percentile,[(100-{p})/2,100-(100-{p})/2],axis=-1)"), _ct(f"np.percentile(self.samples,[(100-{p})/2,100-(100-{p})/2],axis=-1)")]
+    Q = f"[(100-{p})/2,100-(100-{p})/2]"
+    want = [_ct(f"self._compute_numpy_stats(np.percentile,{Q},axis=-1)"), _ct(f"np.percentile(self.samples,{Q},axis=-1)"),
+            _ct(f"self._compute_numpy_stats(np.percentile,q={Q},axis=-1)"), _ct(f"np.percentile(self.samples,q={Q},axis=-1)"),
+            _ct(f"self._compute_numpy_stats(np.percentile,axis=-1,q={Q})"), _ct(f"np.percentile(self.samples,axis=-1,q={Q})")]     # q by keyword is numpy's second parameter
     chk.add("C19-R3", f"{ci.qual}.compute_ci", got in want, site(repo, fn), "percentiles [(100-p)/2, 100-(100-p)/2] in this order", f"compute_ci is `{got}`", fn)
     fn = repo.method(ci, "ci_width")[1]
     p = func_params(fn)[1]
@@ -254,8 +257,8 @@ def _r4(chk, repo, ci):
     okr = any(match(repo, ci, fn, o + ["return $R"]) is not None for o in ORDER)
     if not okr:
         unknowns.append("collection of the R-hat values not recognised")
-    geo = any(unify([f"if: {a}!={b}"], S)[0] is not None for a, b in (("self.geometry", "chains[$i].geometry"), ("chains[$i].geometry", "self.geometry"),
-                                                                       ("self.geometry", "$c.geometry"), ("$c.geometry", "self.geometry")))
+    geo = any(unify([f"if: {a}{op}{b}"], S)[0] is not None for op in ("!=", "==")
+              for a, b in (("self.geometry", "$ch[$i].geometry"), ("$ch[$i].geometry", "self.geometry"), ("self.geometry", "$c.geometry"), ("$c.geometry", "self.geometry")))
     if not geo:
         problems.append("chains with another geometry are not refused")
     if problems:
